@@ -24,7 +24,8 @@ Hex2Upper(n) == LET h == Reverse(HexDigitsRev(n, TRUE)) IN IF Len(h) = 1 THEN <<
 IntText(neg, mag) == (IF neg THEN <<MINUS>> ELSE <<>>) \o DigitChars(OfNat(mag))
 
 PrintNum(n) ==
-  IF n.t = "int" THEN (IF n.neg THEN <<MINUS>> ELSE <<>>) \o DigitChars(n.d)
+  \* "big" (an out-of-range integer literal, denoting a float approximating it) is written with its digits
+  IF n.t \in {"int", "big"} THEN (IF n.neg THEN <<MINUS>> ELSE <<>>) \o DigitChars(n.d)
   ELSE (IF n.neg THEN <<MINUS>> ELSE <<>>) \o DigitChars(n.d) \o <<101>> \o
        (IF n.e < 0 THEN <<MINUS>> \o DigitChars(OfNat(0 - n.e)) ELSE DigitChars(OfNat(n.e)))
 
